@@ -16,6 +16,7 @@ Pipeline (DESIGN.md section 4 "C11"):
     TraceRoutes.tla -- direction B.
 """
 import concurrent.futures
+import hashlib
 import json
 import os
 import random
@@ -65,10 +66,12 @@ def flatten(tables, model):
         for row in t["rows"]:
             ct, body, ck, ba, to, site2, outs, bad = row
             rows_total += 1
-            key = (t["firstRun"], t["hasUser"], t["pat"], t["site"], t["sub"], t["spelling"], t["method"], ct, body, ck, ba)
+            rk = (t["firstRun"], t["hasUser"], t["pat"], t["site"], t["sub"], t["spelling"], t["method"], ct, body, ck, ba)
+            key = rk + (t["reg"],)
             v = vecs.get(key)
             if v is None:
                 v = vecs[key] = {"fr": t["firstRun"], "hu": t["hasUser"], "pat": t["pat"], "site": t["site"],
+                                 "reg": t["reg"], "rk": json.dumps(rk),
                                  "sub": t["sub"], "sp": t["spelling"], "m": t["method"], "ct": ct, "b": body,
                                  "ck": ck, "ba": ba, "to": to, "exp": set(), "viol": set(),
                                  "linux": t["site"] in linux_sites and (site2 in linux_sites),
@@ -76,7 +79,7 @@ def flatten(tables, model):
             v["exp"].update(outs)
             for b in bad:
                 v["viol"].add(b)
-                spec_bad.setdefault((b, t["pat"], t["site"]), v)
+                spec_bad.setdefault((b, t["pat"], t["site"], t["reg"]), v)
     out = []
     for i, (k, v) in enumerate(sorted(vecs.items(), key=lambda kv: json.dumps(kv[0]))):
         v["id"] = i
@@ -93,22 +96,26 @@ def nontrivial(v):
 
 
 def select(ctx, vecs):
-    """Quick tier: every (state, route, target, method, spelling) keeps a seeded third of its
-    rows; all vectors without credentials are kept.  Thorough: everything."""
+    """Quick tier: all vectors without credentials on the canonical path and every vector the
+    model flags are kept, of the rest a seeded 30 % (chosen per request, so that the variants
+    of one registration are selected together).  Thorough: everything."""
     lin = [v for v in vecs if v["linux"]]
     if not ctx.quick:
         return lin, True
-    rng = random.Random(ctx.seed)
     sel = []
     for v in lin:
         nocred = v["ck"] in ("none", "unknown", "expired") and v["ba"] in ("none", "wrong")
-        if v["viol"] or (nocred and v["sp"] == "canonical") or rng.random() < 0.30:
+        h = int(hashlib.sha1(("%d|%s" % (ctx.seed, v["rk"])).encode()).hexdigest()[:8], 16) / float(1 << 32)
+        if v["viol"] or (nocred and v["sp"] == "canonical") or h < 0.30:
             sel.append(v)
     return sel, False
 
 
 def go_vec(v):
-    return {k: v[k] for k in ("id", "fr", "hu", "pat", "sub", "sp", "m", "ct", "b", "ck", "ba", "to", "exp")}
+    g = {k: v[k] for k in ("id", "fr", "hu", "pat", "sub", "sp", "m", "ct", "b", "ck", "ba", "to", "exp")}
+    if v.get("viol"):
+        g["w"] = True      # the harness reports what it observed for this vector
+    return g
 
 
 # --------------------------------------------------------------------- arenas
@@ -230,8 +237,24 @@ def run(ctx):
         raise vlib.Inconclusive("response classifier disagrees with the probe flag on %d vectors (harness unsound): %s" % (
             detector, json.dumps(ex)[:1500]))
 
+    # A registration reached through the callback has one model variant per
+    # registrar bound in the program (the extractor cannot tell which package
+    # receives which): a disagreement of one variant is dismissed when a
+    # sibling variant of the same registration explains the same request.
+    by_rk = {}
+    for v in sel:
+        by_rk.setdefault(v["rk"], []).append(v)
+    bad_all = [r for r in rows if r["kind"] == "bad"]
+    bad_keys = {(r["arena"], r["vec"]["id"]) for r in bad_all}
+    bad, dismissed = [], 0
+    for r in bad_all:
+        sib = [x for x in by_rk.get(by_id[r["vec"]["id"]]["rk"], []) if x["id"] != r["vec"]["id"]]
+        if any((r["arena"], x["id"]) not in bad_keys for x in sib):
+            dismissed += 1
+        else:
+            bad.append(r)
+
     # Every disagreement is re-run alone, a second time, in fresh processes.
-    bad = [r for r in rows if r["kind"] == "bad"]
     reproduced = []
     if bad:
         ids = sorted({r["vec"]["id"] for r in bad})
@@ -245,44 +268,56 @@ def run(ctx):
     flaky = len(bad) - len(reproduced)
 
     # Specification-level violations (TLC found the requirement violated on an
-    # extracted route): confirm at run time that the route really behaves as
-    # the model says before reporting it.
-    bad_ids = {r["vec"]["id"] for r in reproduced}
-    sel_ids = {v["id"] for v in sel}
+    # extracted route): reported only after the real mux confirmed that the
+    # route behaves as the model says -- for "a handler runs that must not",
+    # that the response to a witness request can only be the handler's.
+    watch = {}
+    for r in rows:
+        if r["kind"] == "watch":
+            watch.setdefault(r["id"], []).append(r)
     reported = set()
-    for (req, pat, site), ex in sorted(spec_bad.items()):
-        route = next((r for r in model if r["pat"] == pat and r["site"] == site), {"pat": pat, "site": site})
-        witnesses = [v for v in vecs if req in v["viol"] and v["pat"] == pat and v["site"] == site]
-        if req in ("PublicReachable", "AuthServed"):
-            # the model of the unchanged tree satisfies these; a failure means the
-            # extracted chain denies what the statement expects to be reachable
-            conf = [v for v in witnesses if v["id"] in sel_ids and v["id"] not in bad_ids and v["linux"]]
-        else:
-            conf = [v for v in witnesses if v["id"] in sel_ids and v["id"] not in bad_ids and v["linux"]]
-        if pat not in live_all:
-            ctx.notes.append("TLC: %s violated for %s (%s) but the pattern is not served by the admin mux" % (req, pat, site))
-            if route.get("mux") == ADMIN_MUX and "linux" in route.get("goos", []):
-                raise vlib.Inconclusive("route %s violates %s in the model but could not be exercised" % (pat, req))
-            continue
+    for (req, pat, site, reg), ex in sorted(spec_bad.items()):
+        route = next((r for r in model if r["pat"] == pat and r["site"] == site and r.get("registrar", "") == reg),
+                     {"pat": pat, "site": site})
+        witnesses = [v for v in vecs if req in v["viol"] and v["pat"] == pat and v["site"] == site and v["reg"] == reg]
+        runs = req in ("NoUnauthenticatedHandler", "MutatingNeedsMethodAndJSON")
+        conf = []
+        for v in witnesses:
+            for o in watch.get(v["id"], []):
+                certain_ran = o["possible"] == ["handler"]
+                certain_not = "handler" not in o["possible"]
+                if (runs and certain_ran) or (not runs and certain_not):
+                    conf.append((v, o))
+        variants = [r for r in model if r["pat"] == pat and r["site"] == site]
         if not conf:
-            raise vlib.Inconclusive("TLC reports %s violated for route %s (%s) but the real mux does not behave "
-                                    "as the extracted chain %s says: extractor and code disagree" % (
-                                        req, pat, site, route.get("chain")))
-        w = conf[0]
+            msg = "TLC: %s violated for %s (%s, registrar %s, chain %s) but the real mux does not confirm it" % (
+                req, pat, site, reg or "-", route.get("chain"))
+            if len(variants) > 1 or pat not in live_all or "linux" not in route.get("goos", ["linux"]):
+                ctx.notes.append(msg)      # another variant / another OS / not served
+                continue
+            raise vlib.Inconclusive(msg + ": extractor and code disagree")
+        # the most telling witness first: plain GET, no cookie, no credentials
+        conf.sort(key=lambda vo: (vo[0]["ck"] != "none", vo[0]["ba"] != "none", vo[0]["sp"] != "canonical", vo[0]["m"] != "GET",
+                                  vo[0]["b"], vo[0]["ct"] != "none", vo[0]["id"]))
+        w, o = conf[0]
         rec = {"kind": "spec-violation", "requirement": req, "route": route, "tlc_invariant": mc["violated"],
-               "vec": go_vec(w), "witnesses": len(witnesses), "confirmed_at_runtime": len(conf),
-               "what": "model and real mux agree: outcome %s for %s %s%s cookie=%s basic=%s" % (
-                   w["exp"], w["m"], w["pat"], w["sub"], w["ck"], w["ba"])}
-        ctx.disagreement(classify(rec), rec, "%s violated by route %s registered at %s (chain %s); confirmed on the real mux" % (
-            req, pat, site, route.get("chain")))
+               "vec": go_vec(w), "observed": o, "witnesses": len(witnesses), "confirmed_at_runtime": len(conf),
+               "what": "%s %s%s cookie=%s basic=%s ctype=%s body=%s: model %s, real mux %s %s" % (
+                   w["m"], w["pat"], w["sub"], w["ck"], w["ba"], w["ct"], w["b"], w["exp"], o["status"], o["possible"])}
+        ctx.disagreement(classify(rec), rec, "%s violated by route %s registered at %s%s (chain %s); confirmed on the real mux: %s" % (
+            req, pat, site, (" through " + reg) if reg else "", route.get("chain"), rec["what"]))
         reported.add(pat)
 
+    # the most telling disagreements first: a handler that ran, canonical path, plain request
+    reproduced.sort(key=lambda r: (r["possible"] != ["handler"], r["vec"]["sp"] != "canonical", r["vec"]["ck"] != "none",
+                                   r["vec"]["ba"] != "none", r["vec"]["m"] != "GET", r["vec"]["id"]))
     for r in reproduced:
         if r["vec"]["pat"] in reported:
             continue
         v = r["vec"]
-        ctx.disagreement(classify(r), r, "arena %s: %s %s -> %s %s; specification admits %s (%s)" % (
-            r["arena"], r["concrete"]["method"], r["concrete"]["target"], r["obs"]["status"], r["possible"], v["exp"], r["why"]))
+        ctx.disagreement(classify(r), r, "arena %s (firstRun=%s hasUser=%s): %s %s cookie=%s basic=%s ctype=%s body=%s -> %s %s; specification admits %s (%s)" % (
+            r["arena"], v["fr"], v["hu"], r["concrete"]["method"], r["concrete"]["target"], v["ck"], v["ba"], v["ct"], v["b"],
+            r["obs"]["status"], r["possible"], v["exp"], r["why"]))
 
     # Direction B.
     trows = vlib.read_ndjson(trace)
@@ -337,11 +372,12 @@ def run(ctx):
         "registrations_not_linked_into_binary": [r["site"] for r in doc["routes"] if not r["reachable"]],
         "vectors_generated": len(vecs), "vectors_selected": len(sel), "vectors_replayed": replayed,
         "vectors_not_replayable": skipped,
-        "per_arena": {k: {x: s[x] for x in ("n", "handler_ran", "handler_not_ran", "probe_vectors", "handler_panics",
+        "per_arena": {k: {x: s[x] for x in ("n", "handler_ran", "handler_not_ran", "probe_vectors", "handler_panics", "handler_panic_routes",
                                             "routes_exercised", "by_class", "slowest_ms", "slowest_req")} for k, s in summ.items()},
         "vacuity_guards": guard,
-        "spec_level_violations": sorted("%s %s" % (k[0], k[1]) for k in spec_bad),
+        "spec_level_violations": sorted("%s %s %s" % (k[0], k[1], k[3]) for k in spec_bad),
         "disagreements_first_pass": len(bad), "disagreements_reproduced": len(reproduced), "flaky": flaky,
+        "disagreements_explained_by_sibling_variant": dismissed,
         "trace_lines": len(trows), "trace_requests": len(treq), "trace_lines_rejected": trace_rejected,
         "exhaustive": exhaustive, "samples": samples,
     }
